@@ -649,6 +649,9 @@ impl<T: Read + Seek, D: Read + Seek> Reader<T, D> {
     /// Seeks to the start of the shape at `index`
     pub fn seek(&mut self, index: usize) -> Result<(), Error> {
         self.shape_reader.seek(index)?;
+        // Every position behind the last shape is the same position, the rows follow
+        // the shapes there as well (and a huge index cannot overflow the row offset).
+        let index = index.min(self.shape_reader.shape_count()?);
         self.dbase_reader.seek(index)?;
         Ok(())
     }
